@@ -858,6 +858,40 @@ MUTANTS = {
           "  # remove list brackets\n"
           "  s = s.replace(\"[\", \"\").replace(\"]\", \"\")"
           ".replace(\"-\", \"\")\n")]),
+    # --- round 19 ---------------------------------------------------------
+    "m140_relu_noise_factor_or_one": dict(expect=["C07"], edits=[
+        E("qkeras/quantizers.py",
+          "    self.is_quantized_clip = is_quantized_clip\n"
+          "    self.qnoise_factor = qnoise_factor\n",
+          "    self.is_quantized_clip = is_quantized_clip\n"
+          "    self.qnoise_factor = qnoise_factor or 1.0\n")]),
+    "m141_global_max_pooling_not_counted": dict(expect=["C19"], edits=[
+        E("qkeras/qtools/qtools_util.py",
+          "    return \"MaxPool\" in lname or \"Reshape\" in lname or "
+          "\"Flatten\" in lname\n",
+          "    return (\"MaxPool\" in lname and \"Global\" not in lname or\n"
+          "            \"Reshape\" in lname or \"Flatten\" in lname)\n")]),
+    "m142_bits_scale_axis_dropped_without_alpha": dict(expect=["C05"], edits=[
+        E("qkeras/quantizers.py",
+          "    self.scale_axis = scale_axis\n"
+          "    self.qnoise_factor = qnoise_factor\n",
+          "    self.scale_axis = scale_axis if isinstance(\n"
+          "        alpha, six.string_types) else None\n"
+          "    self.qnoise_factor = qnoise_factor\n")]),
+    "m143_ternary_scale_from_float_alpha_only": dict(expect=["C04"], edits=[
+        E("qkeras/quantizers.py",
+          "    elif isinstance(self.alpha, np.ndarray):\n"
+          "      scale = self.alpha\n"
+          "    else:\n"
+          "      scale = float(self.alpha)\n\n"
+          "    # This is an approximiation from",
+          "    elif isinstance(self.alpha, np.ndarray):\n"
+          "      scale = self.alpha\n"
+          "    elif isinstance(self.alpha, float):\n"
+          "      scale = self.alpha\n"
+          "    else:\n"
+          "      scale = 1.0\n\n"
+          "    # This is an approximiation from")]),
     "m95_po2_operand_converted_in_place": dict(expect=["C17"], edits=[
         E(QO + "adder_factory.py",
           "    local_quantizer_1 = copy.deepcopy(quantizer_1)\n"
@@ -1250,6 +1284,33 @@ BENIGN = {
                                                  edits=os.path.join(
         os.path.dirname(os.path.abspath(__file__)), "benign_patches",
         "b67_reduce_axes_memo_keyed_by_format.diff")),
+    # --- round 19 ---------------------------------------------------------
+    "b72_shape_alternation_by_any": dict(props=["C19", "C18"], edits=[
+        E("qkeras/qtools/qtools_util.py",
+          "    return \"MaxPool\" in lname or \"Reshape\" in lname or "
+          "\"Flatten\" in lname\n",
+          "    return any(key in lname for key in (\"MaxPool\", \"Reshape\",\n"
+          "                                        \"Flatten\"))\n")]),
+    "b73_noise_factor_none_means_one": dict(props=["C07", "C06", "C09"],
+                                            edits=[
+        E("qkeras/quantizers.py",
+          "    self.is_quantized_clip = is_quantized_clip\n"
+          "    self.qnoise_factor = qnoise_factor\n",
+          "    self.is_quantized_clip = is_quantized_clip\n"
+          "    self.qnoise_factor = 1.0 if qnoise_factor is None else "
+          "qnoise_factor\n")]),
+    "b74_ternary_scale_float_or_int": dict(props=["C04", "C10"], edits=[
+        E("qkeras/quantizers.py",
+          "    elif isinstance(self.alpha, np.ndarray):\n"
+          "      scale = self.alpha\n"
+          "    else:\n"
+          "      scale = float(self.alpha)\n\n"
+          "    # This is an approximiation from",
+          "    elif isinstance(self.alpha, (int, float)):\n"
+          "      scale = float(self.alpha)\n"
+          "    else:\n"
+          "      scale = self.alpha\n\n"
+          "    # This is an approximiation from")]),
     # --- round 18 ---------------------------------------------------------
     "b68_ternary_divides_by_reciprocal": dict(props=["C04", "C05"], edits=[
         E("qkeras/quantizers.py",
